@@ -65,6 +65,16 @@ def handle (kind : String) (args : List String) (impl : String) : String :=
       let spS := if sp == "" then "" else s!"SPEC {sp} impl={impl}"
       if d == "" && spS == "" then "ok" else d ++ (if d != "" && spS != "" then " ; " else "") ++ spS
     | _, _, _ => "bad-op"
+  | "c14.scan", [_st, nmS, _nr] =>
+    -- SCAN walks over the masters of the routing table, in address order, under every strategy: together they hold every key once
+    match nmS.toNat? with
+    | some nm =>
+      let m := s!"targets={",".intercalate ((List.range nm).map fun i => s!"M{i}")} keys={nm}"
+      let sp := if (impl.splitOn "R").length > 1 || (impl.splitOn "X").length > 1 then "SCAN-sent-to-a-node-that-is-not-a-master" else ""
+      let d := if impl == m then "" else s!"DIFF model={m} impl={impl}"
+      let ss := if sp == "" then "" else s!"SPEC {sp} impl={impl}"
+      if d == "" && ss == "" then "ok" else d ++ (if d != "" && ss != "" then " ; " else "") ++ ss
+    | none => "bad-op"
   | "c14.topo", [st, _a1, a2, _n] =>
     -- after the second refresh reads go to the replicas that follow the owner now (REPLICA; the master when it has none),
     -- or to the master or those replicas (BOTH); never to a node that follows another master
